@@ -62,3 +62,43 @@ Proof.
     exfalso. pose proof (find_filter_some _ _ Hw1 _ _ E) as Hq. rewrite Hfind1 in Hq. inversion Hq; subst q.
     destruct (find_some _ _ _ E) as [Hqin _]. apply filter_In in Hqin as [_ Hqk]. congruence.
 Qed.
+
+(* ---------------------------------------------------------------------------------------- *)
+(* C10: Clean takes only best-chain headers out of memory, and none at or above the parent of an
+   in-memory side-tree header - so every side branch can still be extended (its headers are in
+   memory) and new forks can still start where forks already start (the fork points are too) *)
+From BR Require Import Headers.TreeHorizon.
+
+Theorem clean_keeps_side_trees s d n : Inv s -> In n (nodes s) -> n_mem n = true ->
+  is_anc (nodes s) (n_hash n) (tip s) = false ->
+  exists n', find (n_hash n) (nodes (fst (clean s d))) = Some n' /\ n_mem n' = true /\ core n' = core n.
+Proof.
+  intros (Hw & _) Hn Hm Hoff. unfold clean. cbn [fst nodes]. rewrite clean_nodes_eq.
+  exists (clean_f (nodes s) (tip s) d n). split; [|split].
+  - rewrite find_map by apply clean_f_core. rewrite (wf_find_self _ Hw n Hn). reflexivity.
+  - rewrite clean_f_mem, Hoff. exact Hm.
+  - apply clean_f_core.
+Qed.
+
+Theorem clean_keeps_fork_points s d c q : Inv s -> In c (nodes s) -> n_mem c = true ->
+  is_anc (nodes s) (n_hash c) (tip s) = false -> find (n_prev c) (nodes s) = Some q -> n_mem q = true ->
+  exists q', find (n_hash q) (nodes (fst (clean s d))) = Some q' /\ n_mem q' = true /\ core q' = core q.
+Proof.
+  intros (Hw & _) Hc Hm Hoff Hq Hqm. unfold clean. cbn [fst nodes]. rewrite clean_nodes_eq.
+  destruct (find_some _ _ _ Hq) as [Hqin Hqh].
+  exists (clean_f (nodes s) (tip s) d q). split; [|split].
+  - rewrite find_map by apply clean_f_core. rewrite (wf_find_self _ Hw q Hqin). reflexivity.
+  - rewrite clean_f_mem. destruct (is_anc (nodes s) (n_hash q) (tip s)); [|exact Hqm].
+    rewrite Hqm. cbn [andb]. apply Z.leb_le.
+    set (l := nodes s) in *. set (t := tip s) in *.
+    assert (Hin : In (consolidate_f (chain_of l t) c) (consolidate l t)) by (rewrite consolidate_eq; apply in_map; exact Hc).
+    pose proof (prune_height_side (consolidate l t) t d _ Hin) as H.
+    rewrite consolidate_f_mem in H. specialize (H Hm).
+    rewrite consolidate_eq, chain_of_map in H by apply consolidate_f_core.
+    rewrite (on_chain_core _ _ c (consolidate_f_core (chain_of l t))), on_chain_is_anc in H.
+    specialize (H Hoff). rewrite (keeps_core_height _ c (consolidate_f_core (chain_of l t))) in H.
+    destruct (wf_parent l Hw c Hc) as [[Hr _]|(q0 & Hq0 & Hh & _)].
+    + rewrite Hr in Hq. destruct (find_some _ _ _ Hq) as [Hz Hz0]. exfalso. exact (wf_hash_nz l Hw q Hz Hz0).
+    + rewrite Hq in Hq0. inversion Hq0; subst q0. rewrite consolidate_eq. lia.
+  - apply clean_f_core.
+Qed.
